@@ -245,7 +245,13 @@ def gen_case(rng, tier, T_modes=("zero", "pos", "mixed", "named", "empty")):
             # an explicit temperature list is used as it is: anneal_duration (and temperature_range) are documented as ignored then
             "dur": (rng.choice([1, 1, 2, 3]) if (Ts is not None and rng.random() < 0.35) else None),
             # how the entries of an explicit temperature list are spelled: floats, Python ints where integral, numpy scalars
-            "ts_as": rng.choice(["float", "float", "native", "np"])}
+            "ts_as": rng.choice(["float", "float", "native", "np"]),
+            "remap": (remap_choice(rng) if (kind and not kind.endswith("Matrix")) else None)}
+
+
+def remap_choice(rng):
+    from props import c04
+    return c04.gen_remap(rng) if rng.random() < 0.6 else None
 
 
 def build_model(case):
@@ -256,6 +262,9 @@ def build_model(case):
     m = cls_of(case["kind"])(d)
     for k, v in G.unjraw(case["upd"]):
         m[k] = C.num(v)
+    if case.get("remap"):
+        from props import c04
+        c04.apply_remap(m, case["remap"])       # a numbering chosen by the user
     return m
 
 
@@ -322,9 +331,12 @@ def literal(case, out):
     Ts = [F(x) for x in out["Ts"]]
     tab = out["tab"]
     init = "None" if case["init"] is None else "(Some [%s])" % "; ".join("(%d%%nat, (%d)%%Z)" % (l, v) for l, v in case["init"])
-    cin = ("{| a_fn := %d%%nat; a_src := %s; a_terms := %s; a_upd := %s; a_tab := [%s]; a_Ts := [%s]; a_num := (%d)%%Z; "
+    mp = "None"
+    if case.get("remap") and case["kind"] and not case["kind"].endswith("Matrix"):
+        mp = "(Some [%s])" % "; ".join("(%d%%nat, %d%%nat)" % (C.enc(l), i) for l, i in build_model(case).mapping.items())
+    cin = ("{| a_fn := %d%%nat; a_src := %s; a_terms := %s; a_upd := %s; a_mp := %s; a_tab := [%s]; a_Ts := [%s]; a_num := (%d)%%Z; "
            "a_in_order := %s; a_init := %s; a_seed := %d%%N |}") % (
-        case["fn"], C.optc(case["kind"], lambda k: KIND[k]), tl(case["terms"]), tl(case["upd"]),
+        case["fn"], C.optc(case["kind"], lambda k: KIND[k]), tl(case["terms"]), tl(case["upd"]), mp,
         "; ".join("(%s, (%s, %s))" % (C.q(F(x)), C.q(F(lo)), C.q(F(hi))) for x, lo, hi in tab),
         "; ".join(C.q(x) for x in Ts), case["num"], C.boolc(case["in_order"]), init, case["seed"])
     if "error" in out:
